@@ -118,9 +118,9 @@ def _nmax(tier):
 
 
 PARTS = [
-    Part('lanczos', check_lanczos, strategy=lambda tier: krylov_desc(nmax=_nmax(tier), kinds=('herm_real', 'herm_complex')),
+    Part('lanczos', check_lanczos, strategy=lambda tier: krylov_desc(nmax=_nmax(tier), kinds=('herm_real', 'herm_complex', 'herm_complex', 'herm_real', 'herm_kernel')),
          n={'quick': 600, 'thorough': 20000}, workers={'quick': 4, 'thorough': 16}),
     Part('arnoldi', check_arnoldi,
-         strategy=lambda tier: krylov_desc(nmax=_nmax(tier), kinds=('general', 'general', 'general_jordan', 'herm_complex', 'herm_real')),
+         strategy=lambda tier: krylov_desc(nmax=_nmax(tier), kinds=('general', 'general', 'general_jordan', 'herm_complex', 'herm_real', 'general_shift', 'herm_kernel')),
          n={'quick': 500, 'thorough': 15000}, workers={'quick': 4, 'thorough': 16}),
 ]
